@@ -157,6 +157,28 @@ CATALOGUE = [
     V("binding-by-position", ["C18"], "break",
       [(G, "e.vertices = [self._vertices[id_index_dict[v_id]] for v_id in e.vertex_ids]",
         "e.vertices = [self._vertices[id_index_dict.get(v_id, 0)] for v_id in e.vertex_ids]", 1)], "C18-B1"),
+    # ---------------------------------------------------------------- round 8: special-case fast paths, shared storage, sequence kinds
+    V("se3-ominus-same-orientation-shortcut-wrong-frame", ["C09", "C02"], "break",
+      [(SE3, '        """\n        # fmt: off\n        return PoseSE3([self[0] - other[0] + 2. * (-(other[4]**2', '        """\n        if np.array_equal(self[3:], other[3:]):\n            return PoseSE3([self[0] - other[0], self[1] - other[1], self[2] - other[2]], [0., 0., 0., 1.])\n\n        # fmt: off\n        return PoseSE3([self[0] - other[0] + 2. * (-(other[4]**2', 1)], "PoseSE3"),
+    V("se3-ominus-same-orientation-shortcut-twin", ["C09", "C10", "C02", "C01"], "twin",
+      [(SE3, '        """\n        # fmt: off\n        return PoseSE3([self[0] - other[0] + 2. * (-(other[4]**2', '        """\n        if np.array_equal(self[3:], other[3:]):\n            d = other.inverse + PoseR3(self[:3])\n            return PoseSE3([d[0], d[1], d[2]], [0., 0., 0., 1.])\n\n        # fmt: off\n        return PoseSE3([self[0] - other[0] + 2. * (-(other[4]**2', 1)]),
+    V("is-valid-compares-a-list-with-the-id-sequence", ["C18"], "break",
+      [(BE, "        for vertex, v_id in zip(self.vertices, self.vertex_ids):\n            if vertex.id != v_id:\n                return False\n\n        return True",
+        "        return [vertex.id for vertex in self.vertices] == self.vertex_ids", 1)], "is_valid"),
+    V("is-valid-compares-two-lists-twin", ["C18"], "twin",
+      [(BE, "        for vertex, v_id in zip(self.vertices, self.vertex_ids):\n            if vertex.id != v_id:\n                return False\n\n        return True",
+        "        return [vertex.id for vertex in self.vertices] == list(self.vertex_ids)", 1)]),
+    V("to-g2o-sorts-the-edge-list-in-place", ["C15"], "break",
+      [(G, "            for e in self._edges:\n                edge_str_or_none = e.to_g2o()",
+        "            self._edges.sort(key=lambda e: list(e.vertex_ids))\n            for e in self._edges:\n                edge_str_or_none = e.to_g2o()", 1)], "exports-leave-all-state-unchanged"),
+    V("graph-init-drops-repeated-edge-objects", ["C08", "C03"], "break",
+      [(G, "        self._edges = edges\n", "        self._edges = list(dict.fromkeys(edges))\n", 1)], "same-edge-object-listed-twice"),
+    V("graph-init-copies-the-lists-twin", ["C08", "C03", "C18"], "twin",
+      [(G, "        self._edges = edges\n        self._vertices = vertices\n", "        self._edges = list(edges)\n        self._vertices = list(vertices)\n", 1)]),
+    V("r2-constructor-keeps-the-callers-dtype", ["C09"], "break",
+      [(R2, "obj = np.asarray(position, dtype=np.float64).view(cls)", "obj = np.array(position).view(cls)", 1)], "constructor-holds-float64"),
+    V("r2-constructor-copies-as-float64-twin", ["C09", "C02"], "twin",
+      [(R2, "obj = np.asarray(position, dtype=np.float64).view(cls)", "obj = np.array(position, dtype=np.float64).view(cls)", 1)]),
 ]
 
 
@@ -204,7 +226,7 @@ def run_variant(repo, v, prop):
             named = fired and (not exp or any(e in out for e in exp))
             status = "fired" if named else ("fired-unnamed" if fired else "MISSED")
         else:
-            status = "silent" if r.returncode == 0 else "FALSE-ALARM"
+            status = "silent" if r.returncode == 0 else ("FALSE-ALARM" if r.returncode == 1 else "undecided")
         tail = "\n".join(l for l in out.splitlines() if l.startswith(("  rule=", "ANALYSIS-ERROR")))[:600]
         return dict(id=v["id"], prop=prop, kind=v["kind"], status=status, exit=r.returncode, detail=tail)
     finally:
